@@ -19,6 +19,7 @@ src: dlinked_list.c
 tier: B
 backend: cadical
 unwind: 10
+unwind_thorough: 12
 bound: vector length <= 4, all key values (ascending, duplicates allowed), element of any key; except: one-element vector and element equal to it
 funcs: spif_dlinked_list_insert, spif_dlinked_list_item_comp
 */
@@ -29,6 +30,7 @@ src: dlinked_list.c
 tier: B
 backend: cadical
 unwind: 10
+unwind_thorough: 12
 bound: one-element vector, inserted element equal to the stored one
 funcs: spif_dlinked_list_insert, spif_dlinked_list_item_comp
 */
@@ -39,6 +41,7 @@ src: dlinked_list.c
 tier: B
 backend: cadical
 unwind: 10
+unwind_thorough: 12
 bound: vector length <= 4, all key values (ascending, duplicates allowed), probe of any key
 funcs: spif_dlinked_list_remove
 */
@@ -49,6 +52,7 @@ src: dlinked_list.c
 tier: B
 backend: cadical
 unwind: 10
+unwind_thorough: 12
 bound: vector length <= 4, all key values (ascending, duplicates allowed), probe of any key
 funcs: spif_dlinked_list_vector_find, spif_dlinked_list_vector_contains
 */
@@ -59,6 +63,7 @@ src: dlinked_list.c, obj.c
 tier: B
 backend: cadical
 unwind: 10
+unwind_thorough: 12
 bound: vector length <= 4, all key values (ascending, duplicates allowed)
 funcs: spif_dlinked_list_to_array, spif_dlinked_list_iterator, spif_dlinked_list_iterator_has_next, spif_dlinked_list_iterator_next, spif_dlinked_list_count
 */
